@@ -626,7 +626,10 @@ func hash(name string) uint32 {
 }
 
 func (m *mappedFile) load32(off uint32) uint32 {
-	if int64(off) >= int64(len(m.mapping.Data)) {
+	// The whole word must lie inside the data, and (offsets come from the
+	// file, which may be damaged) it must be aligned: an unaligned atomic
+	// access faults on some platforms.
+	if int64(off)+4 > int64(len(m.mapping.Data)) || off%4 != 0 {
 		return 0
 	}
 	return (*atomic.Uint32)(unsafe.Pointer(&m.mapping.Data[off])).Load()
@@ -644,6 +647,10 @@ func (m *mappedFile) cas32(off, old, new uint32) bool {
 // See the documentation for [mappedFile] for a description of the counter record layout.
 func (m *mappedFile) entryAt(off uint32) (name []byte, next uint32, v *atomic.Uint64, ok bool) {
 	if off < m.hdrLen+hashOff || int64(off)+16 > int64(len(m.mapping.Data)) {
+		return nil, 0, nil, false
+	}
+	if off%8 != 0 {
+		// Records are aligned; the 64-bit count at off is accessed atomically.
 		return nil, 0, nil, false
 	}
 	nameLen := m.load32(off+8) & 0x00ffffff
